@@ -467,61 +467,63 @@ def check_exception_discipline(ctx: Ctx, rid: str, pm: ParserModel) -> None:
     hs = t.handlers
     names = [norm(h.type) if h.type is not None else "<bare>" for h in hs]
     catch_all = [h for h in hs if h.type is None or norm(h.type) in ("Exception", "BaseException")]
-    ctx.ob(rid, "parser:CxxParser.parse|handler catches Exception", len(hs) == 1 and len(catch_all) == 1,
+    # a catch-all must come last (more specific handlers before it are fine: each is held to the same discipline)
+    ctx.ob(rid, "parser:CxxParser.parse|handler catches Exception", len(catch_all) == 1 and hs[-1] is catch_all[0],
            msg=f"handlers of the top-level try are {names}: exceptions other than these escape parse() unwrapped", node=t, mod=mod, nontrivial=False)
     if not catch_all:
         return
-    h = catch_all[0]
-    ename = h.name
     cfg = pm.cfg("parse")
-    hn = next((n for n in cfg.nodes if n.kind == "handler" and n.stmt is h), None)
-    if hn is None or ename is None:
-        ctx.ob(rid, "parser:CxxParser.parse|handler binds the exception", False, msg="the catch-all does not bind the exception to a name", node=h, mod=mod)
-        return
-    # all exits of the handler: explicit raise nodes; classify
-    reach = set()
-    stck = [hn]
-    while stck:
-        x = stck.pop()
-        if x.id in reach:
+    for h in hs:
+        suffix = "" if h is catch_all[0] else f" ({norm(h.type)} handler)"
+        ename = h.name
+        hn = next((n for n in cfg.nodes if n.kind == "handler" and n.stmt is h), None)
+        if hn is None or ename is None:
+            ctx.ob(rid, "parser:CxxParser.parse|handler binds the exception" + suffix, False, msg="the handler does not bind the exception to a name", node=h, mod=mod)
             continue
-        reach.add(x.id)
-        stck.extend(s for s, lab in x.succ)
-    falls = cfg.exit.id in reach
-    raises = [cfg.nodes[i] for i in reach if cfg.nodes[i].kind == "stmt" and isinstance(cfg.nodes[i].stmt, ast.Raise)]
-    bad = []
-    for rn in raises:
-        r: ast.Raise = rn.stmt  # type: ignore
-        if r.exc is None:
-            # bare re-raise: only under the verbose test
-            dom = [cfg.nodes[i] for i in cfg.dominators()[rn.id] if cfg.nodes[i].kind == "test" and cfg.nodes[i].cond is not None]
-            if not any("verbose" in norm(d.cond) for d in dom if d.id in reach):
-                bad.append("bare re-raise outside the verbose branch")
-            continue
-        is_cpe = isinstance(r.exc, ast.Call) and isinstance(r.exc.func, ast.Name) and r.exc.func.id == "CxxParseError"
-        if not is_cpe:
-            bad.append(f"raises `{short(r.exc)}`, not CxxParseError")
-        if not (isinstance(r.cause, ast.Name) and r.cause.id == ename):
-            bad.append(f"`{short(r)}` is not chained to the caught exception `{ename}`")
-    # the exception name must not be rebound inside the handler
-    for i in reach:
-        x = cfg.nodes[i]
-        if x is hn:
-            continue
+        # all exits of the handler: explicit raise nodes; classify
+        reach = set()
+        stck = [hn]
+        while stck:
+            x = stck.pop()
+            if x.id in reach:
+                continue
+            reach.add(x.id)
+            stck.extend(s for s, lab in x.succ)
+        falls = cfg.exit.id in reach
+        raises = [cfg.nodes[i] for i in reach if cfg.nodes[i].kind == "stmt" and isinstance(cfg.nodes[i].stmt, ast.Raise)]
+        bad = []
+        for rn in raises:
+            r: ast.Raise = rn.stmt  # type: ignore
+            if r.exc is None:
+                # bare re-raise: only under the verbose test
+                dom = [cfg.nodes[i] for i in cfg.dominators()[rn.id] if cfg.nodes[i].kind == "test" and cfg.nodes[i].cond is not None]
+                if not any("verbose" in norm(d.cond) for d in dom if d.id in reach):
+                    bad.append("bare re-raise outside the verbose branch")
+                continue
+            is_cpe = isinstance(r.exc, ast.Call) and isinstance(r.exc.func, ast.Name) and r.exc.func.id == "CxxParseError"
+            if not is_cpe:
+                bad.append(f"raises `{short(r.exc)}`, not CxxParseError")
+            if not (isinstance(r.cause, ast.Name) and r.cause.id == ename):
+                bad.append(f"`{short(r)}` is not chained to the caught exception `{ename}`")
+        # the exception name must not be rebound inside the handler
         from ..cfg import node_defs
-        if ename in node_defs(x):
-            bad.append(f"`{ename}` is rebound inside the handler")
-    if falls:
-        bad.append("a path through the handler completes normally: parse() would return after an error")
-    ctx.ob(rid, "parser:CxxParser.parse|handler re-raises CxxParseError from the caught exception on every path", not bad, msg="; ".join(bad), node=h, mod=mod)
-    hcalls = []
-    for st in h.body:
-        for c in walk_local(st):
-            if isinstance(c, ast.Call):
-                r = pm.resolve("parse", c)
-                if r and (r[0] == "visitor" or (r[0] == "self" and r[1] in emit) or r[0] == "finish"):
-                    hcalls.append(short(c))
-    ctx.ob(rid, "parser:CxxParser.parse|handler delivers no callback", not hcalls, msg=f"the error handler can deliver callbacks: {hcalls}", node=h, mod=mod)
+        for i in reach:
+            x = cfg.nodes[i]
+            if x is hn:
+                continue
+            if ename in node_defs(x):
+                bad.append(f"`{ename}` is rebound inside the handler")
+        if falls:
+            bad.append("a path through the handler completes normally: parse() would return after an error")
+        ctx.ob(rid, "parser:CxxParser.parse|handler re-raises CxxParseError from the caught exception on every path" + suffix, not bad, msg="; ".join(bad), node=h, mod=mod)
+        hcalls = []
+        for st in h.body:
+            for c in walk_local(st):
+                if isinstance(c, ast.Call):
+                    r = pm.resolve("parse", c)
+                    if r and (r[0] == "visitor" or (r[0] == "self" and r[1] in emit) or r[0] == "finish"):
+                        hcalls.append(short(c))
+        ctx.ob(rid, "parser:CxxParser.parse|handler delivers no callback" + suffix, not hcalls, msg=f"the error handler can deliver callbacks: {hcalls}", node=h, mod=mod)
     # other try statements in the parser: a handler that completes normally must not enclose emitting code
     for fname, fn in pm.methods.items():
         for tr in walk_local(fn):
